@@ -1001,8 +1001,13 @@ class icmpv6 (packet_base):
       self.next = raw[self.MIN_LEN:]
       return
 
-    offset,self.next = cls.unpack_new(raw, offset=self.MIN_LEN,
-        buf_len=buf_len,prev=self)
+    try:
+      offset,self.next = cls.unpack_new(raw, offset=self.MIN_LEN,
+          buf_len=buf_len,prev=self)
+    except Exception:
+      # Truncated or malformed message body -- keep it as raw bytes
+      self.msg('(icmpv6 parse) warning: could not parse message body')
+      self.next = raw[self.MIN_LEN:]
 
 
   def hdr (self, payload):
